@@ -594,7 +594,7 @@ class Ctx:
   def uf(self, name, arity, sort=None):
     k = (name, arity)
     if k not in self.ufs:
-      self.ufs[k] = z3.Function(name, *([z3.RealSort()] * arity + [sort or z3.RealSort()]))
+      self.ufs[k] = z3.Function(name, *([z3.RealSort()] * arity + [sort if sort is not None else z3.RealSort()]))
     return self.ufs[k]
 
   def sqrt(self, a):
